@@ -307,6 +307,10 @@ theorem mergeSpends_preserves_recipients (actions : List Action) : reqOuts (merg
         | some acc' => simp [hm acc acc' hmi, reqOuts]
   simpa [reqOuts] using key actions []
 
+/-- `ListedNodup` holds for a wallet whose DB records and unconfirmed outputs are different outputs -/
+example : ListedNodup { empty with confirmed := [⟨1, 0, 2000, 1, 0, 0, false, 1⟩], unconfirmed := [⟨2, 1, 300, 1, 0, 0, false, 2⟩] } := by
+  intro u; cases u <;> decide
+
 /-- non-trivial instance: single-key spend with change, two recipients, one retirement -/
 example : (build { empty with confirmed := [⟨1, 0, 2000, 1, 0, 0, false, 1⟩, ⟨2, 1, 300, 1, 0, 0, false, 2⟩] } 100
     [.spend 1 0 1000 false, .spend 1 1 120 false, .control 0 500 5, .retire 0 400, .control 1 120 6]).1 =
